@@ -264,3 +264,27 @@ def lemma_isum_zero(a: A[int, 1], lo: int, hi: int):
     unfold(ISUM(a, lo, hi))
     if hi > lo:
         lemma_isum_zero(a, lo, hi - 1)
+
+
+@spec
+def MSUM(a: A[int, 1], m: A[bool, 1], n: int) -> int:
+    """sum of the entries of a[0:n] selected by the mask m"""
+    decreases(n)
+    if n <= 0:
+        return 0
+    return MSUM(a, m, n - 1) + ite(m[n - 1], a[n - 1], 0)
+
+
+@lemma(shared=True)
+def lemma_msel_sum(sel: A[int, 1], a: A[int, 1], m: A[bool, 1], n: int):
+    """the sum of a boolean-mask selection a[m] is the masked sum of a"""
+    requires(n >= 0, forall(0, n, lambda p: implies(m[p], sel[BCOUNT(m, 0, p)] == a[p])))
+    ensures(ISUM(sel, 0, BCOUNT(m, 0, n)) == MSUM(a, m, n))
+    decreases(n)
+    unfold(MSUM(a, m, n), BCOUNT(m, 0, n))
+    if n > 0:
+        lemma_msel_sum(sel, a, m, n - 1)
+        lemma_bcount_range(m, 0, n - 1)
+        unfold(ISUM(sel, 0, BCOUNT(m, 0, n - 1) + 1))
+    else:
+        unfold(ISUM(sel, 0, 0))
